@@ -10,6 +10,12 @@ SILENT_FOR = {
  "S16": ["C17"], "S17": ["C15"], "S19": ["C09","C08"], "S20": ["C10","C08"], "S21": ["C20","C07"],
  "S22": ["C02","C04"], "S23": ["C04"], "S25": ["C06","C08"], "S26": ["C18","C08"],
  "S27": ["C01","C02","C04"], "S28": ["C12"], "S29": ["C03"],
+ "S30": ["C06","C08"], "S31": ["C13"], "S32": ["C14","C08"], "S33": ["C14","C08"], "S34": ["C05","C08","C02"],
+ "S35": ["C15"], "S36": ["C20","C07"], "S37": ["C02","C04","C03"], "S38": ["C07","C05"], "S39": ["C16"],
+ "S40": ["C15"], "S41": ["C04","C08","C02"], "S43": ["C11"], "S44": ["C09","C08","C10"], "S45": ["C06","C08"],
+ "S46": ["C04","C02","C08"], "S47": ["C10","C09"], "S48": ["C15"], "S49": ["C18","C08"], "S50": ["C20"],
+ "S51": ["C04","C02"], "S52": ["C16","C04"], "S53": ["C05","C02","C08"], "S54": ["C14","C08"],
+ "S55": ["C05","C06"], "S56": ["C17","C19"], "S57": ["C11"],
 }
 fire = {}
 for line in open(sys.argv[1]):
